@@ -24,6 +24,8 @@ package ledger
 //   commit r=<R>   reload   evict n=<k>   dump
 //   q r=<rnd> a=<id>     qa r=<rnd>     circ r=<rnd> v=<voteRnd>     top r=<rnd> v=<voteRnd> n=<n> p=<proto idx> lvl=<level>
 //   voters r=<rnd>
+//   lockcirc r=<rnd> v=<voteRnd>    OnlineCirculation asked while another connection holds an open (later rolled back) write
+//                                   transaction on the tracker DB: the answer must be the right one or an error
 import (
 	"context"
 	"errors"
@@ -176,6 +178,8 @@ func verifC13Err(err error) string {
 		return "err notfound"
 	case strings.Contains(err.Error(), "too high"):
 		return "err too-high"
+	case strings.Contains(err.Error(), "is locked"):
+		return "err locked"
 	case strings.Contains(err.Error(), "overflow"):
 		return "err overflow"
 	}
@@ -313,7 +317,7 @@ func (h *verifC13Harness) startLedger(genesis map[basics.Address]basics.AccountD
 		return err
 	}
 	h.l = l
-	h.au, h.ao, h.trk = l.accts, l.acctsOnline, &l.trackers
+	h.au, h.ao, h.trk = &l.accts, &l.acctsOnline, &l.trackers
 	return h.finishStart()
 }
 
@@ -569,6 +573,41 @@ func (h *verifC13Harness) exec(op string) string {
 		} else {
 			c, err = h.ao.onlineCirculation(basics.Round(vh.U(kv["r"])), basics.Round(vh.U(kv["v"])))
 		}
+		if err != nil {
+			return verifC13Err(err)
+		}
+		return fmt.Sprintf("ok %d", c.Raw)
+	case "lockcirc":
+		inTx, release, done := make(chan error, 1), make(chan struct{}), make(chan struct{})
+		go func() {
+			defer close(done)
+			_ = h.ao.dbs.Transaction(func(ctx context.Context, tx trackerdb.TransactionScope) error {
+				w, err := tx.MakeOnlineAccountsOptimizedWriter(true)
+				if err != nil {
+					inTx <- err
+					return err
+				}
+				defer w.Close()
+				_, err = w.InsertOnlineAccount(verifC13Addr(250), 0, trackerdb.BaseOnlineAccountData{}, 0, 0)
+				inTx <- err
+				<-release
+				return errors.New("verif: roll back")
+			})
+		}()
+		if err := <-inTx; err != nil {
+			close(release)
+			<-done
+			return "err lock-setup " + err.Error()
+		}
+		var c basics.MicroAlgos
+		var err error
+		if h.l != nil {
+			c, err = h.l.OnlineCirculation(basics.Round(vh.U(kv["r"])), basics.Round(vh.U(kv["v"])))
+		} else {
+			c, err = h.ao.onlineCirculation(basics.Round(vh.U(kv["r"])), basics.Round(vh.U(kv["v"])))
+		}
+		close(release)
+		<-done
 		if err != nil {
 			return verifC13Err(err)
 		}
